@@ -11,6 +11,7 @@
 #include <utility>
 #include <vector>
 #include <sys/mman.h>
+#include <unistd.h>
 
 #include "trace.hpp"
 
@@ -295,6 +296,55 @@ namespace verif
         static AddrRange r;
         return r;
     }
+    // ---- address ranges reserved from the operating system (drivers that include vmhook.hpp) ----
+    struct VmRes
+    {
+        char*       base;
+        std::size_t pages;
+        bool        live;
+    };
+    inline std::vector<VmRes>& vm_reservations()
+    {
+        static std::vector<VmRes> v;
+        return v;
+    }
+    inline std::size_t vm_page()
+    {
+        static std::size_t p = static_cast<std::size_t>(::sysconf(_SC_PAGESIZE));
+        return p;
+    }
+    // >0: the n-th commit (mprotect to read/write inside a reservation) from now is refused
+    inline long& vm_fail_commit_in()
+    {
+        static long n = 0;
+        return n;
+    }
+    inline bool& vm_hooked()
+    {
+        static bool b = false;
+        return b;
+    }
+    // reservation and page offset of an address (-1: none)
+    inline void vm_locate(const void* p, long& r, long& off)
+    {
+        auto  c = static_cast<const char*>(p);
+        auto& v = vm_reservations();
+        for (std::size_t i = v.size(); i-- > 0;)
+            if (v[i].live && c >= v[i].base && c < v[i].base + v[i].pages * vm_page())
+            {
+                r   = static_cast<long>(i);
+                off = static_cast<long>(static_cast<std::size_t>(c - v[i].base) / vm_page());
+                return;
+            }
+        r = off = -1;
+    }
+    // block sources whose own failure path can be provoked (a refused commit) instead of replacing the call
+    template <class BlockAlloc>
+    struct native_failure
+    {
+        static constexpr bool value = false;
+    };
+
     template <class BlockAlloc>
     class logged_blocks : public BlockAlloc
     {
@@ -316,9 +366,21 @@ namespace verif
             {
                 ++w.up_fails;
                 Ev("ux").i("s", src_).u("sz", BlockAlloc::next_block_size()).u("al", 0);
-                throw injected_oom();
+                if (native_failure<BlockAlloc>::value && vm_hooked())
+                    vm_fail_commit_in() = 1; // the source's own commit is refused: its own failure path runs
+                else
+                    throw injected_oom();
             }
+            struct disarm
+            {
+                ~disarm()
+                {
+                    vm_fail_commit_in() = 0;
+                }
+            } disarm_at_exit;
             auto b  = BlockAlloc::allocate_block();
+            long vr, vo;
+            vm_locate(b.memory, vr, vo);
             int  id = w.add_block(static_cast<char*>(b.memory), b.size, 16, src_, false);
             w.blocks[static_cast<std::size_t>(id)].guarded = false;
             ++w.up_allocs;
@@ -333,7 +395,10 @@ namespace verif
                 // a block that does not lie inside the storage the source was given
                 .b("out", range_.lo
                               && (static_cast<const char*>(b.memory) < range_.lo
-                                  || static_cast<const char*>(b.memory) + b.size > range_.hi));
+                                  || static_cast<const char*>(b.memory) + b.size > range_.hi))
+                .i("vr", vr)
+                .i("vo", vo)
+                .u("vp", vr >= 0 ? b.size / vm_page() : 0);
             return b;
         }
 
@@ -343,6 +408,8 @@ namespace verif
             World& w  = world();
             int    id = w.find_base(b.memory);
             ++w.up_frees;
+            long vr, vo;
+            vm_locate(b.memory, vr, vo);
             if (id >= 0)
             {
                 Block_& blk = w.blocks[static_cast<std::size_t>(id)];
@@ -353,7 +420,10 @@ namespace verif
                     .u("al", 16)
                     .i("os", blk.src)
                     .u("osz", blk.size)
-                    .u("oal", blk.align);
+                    .u("oal", blk.align)
+                    .i("vr", vr)
+                    .i("vo", vo)
+                    .u("vp", vr >= 0 ? b.size / vm_page() : 0);
                 blk.live = false;
             }
             else
